@@ -302,7 +302,9 @@ theorem bodies_length (c : Ctx) (bl : Option Nat) : (cl : List (Option Expr × L
     simp [← h.1]
   | (cv, body) :: rest, s, s', bodies, h => by
     simp only [walkBodies] at h
-    obtain ⟨ok, s1, h1, h2⟩ := bind_ok h
+    obtain ⟨outer, s0, h0, h0'⟩ := bind_ok h
+    obtain ⟨ok, s1a, h1, h1'⟩ := bind_ok h0'
+    obtain ⟨u, s1, hset, h2⟩ := bind_ok h1'
     cases ok with
     | false =>
       simp only [Bool.false_eq_true, if_false] at h2
@@ -642,7 +644,12 @@ theorem sound_bodies (c : Ctx) (bl : Option Nat) : (cl : List (Option Expr × Li
   | (cv, body) :: rest => by
     intro s s' sc sc0 vt bodies hinv hbl h hlen hcases
     simp only [walkBodies] at h
-    obtain ⟨ok, s1, h1, h2⟩ := bind_ok h
+    obtain ⟨outer, s0, h0, h0'⟩ := bind_ok h
+    simp at h0
+    obtain ⟨rfl, rfl⟩ := h0
+    obtain ⟨ok, s1a, h1, h1'⟩ := bind_ok h0'
+    obtain ⟨u, s1, hset, h2⟩ := bind_ok h1'
+    simp at hset
     cases ok with
     | false =>
       simp only [Bool.false_eq_true, if_false] at h2
@@ -655,10 +662,13 @@ theorem sound_bodies (c : Ctx) (bl : Option Nat) : (cl : List (Option Expr × Li
       obtain ⟨others, s3, h5, h6⟩ := bind_ok h4
       simp at h6
       obtain ⟨rfl, rfl⟩ := h6
-      obtain ⟨hg1, hall1⟩ := sound_stmts c bl body s s1 sc hinv h1
+      obtain ⟨hg1a, hall1⟩ := sound_stmts c bl body s s1a sc hinv h1
       obtain ⟨o, ho, hi⟩ := hall1 false true
+      -- the clause's declarations are dropped: the name map is the one from before the clause
+      have hinv1 : Inv s1 sc := by rw [← hset]; exact hinv.of_eq rfl hg1a
+      have hg1 : Grows s.b s1.b := by rw [← hset]; exact hg1a
       have hext2 := markBranchPoint_ok h3
-      obtain ⟨hg3, o3, ho3, hi3⟩ := sound_bodies c bl rest s2 s3 o.scope sc0 vt others (hi.ext hext2) hbl h5
+      obtain ⟨hg3, o3, ho3, hi3⟩ := sound_bodies c bl rest s2 s3 sc sc0 vt others (hinv1.ext hext2) hbl h5
         (by simp at hlen; exact hlen) (fun e b hm => hcases e b (by simp [hm]))
       refine ⟨(hg1.trans hext2.grows).trans hg3, { o3 with returns := o.returns ++ o3.returns }, ?_, hi3⟩
       rw [hbl] at ho
